@@ -1,6 +1,7 @@
 package main
 
 import (
+	"fmt"
 	"go/types"
 
 	"golang.org/x/tools/go/ssa"
@@ -43,6 +44,15 @@ func (env *SpecEnv) applyUF(uf *UFDecl, args []*SExpr) (Val, error) {
 	name := sym("uf_" + uf.Name)
 	e.once("uf:"+name, func() {
 		e.emit("(declare-fun " + name + " (" + joinSp(sorts) + ") " + scalarSort(T) + ")")
+		for _, ax := range e.L.specs.Axioms[uf.Name] {
+			aenv := &SpecEnv{e: e, pkg: env.pkg, vars: map[string]Val{}, st: env.st, old: env.old}
+			if t, err := aenv.evalBool(ax.E); err == nil {
+				e.assume(t)
+				e.flag("axiom: " + ax.Src)
+			} else {
+				e.errs = append(e.errs, fmt.Sprintf("%s: %v", ax.Line, err))
+			}
+		}
 	})
 	if len(terms) == 0 {
 		return Val{T: T, S: name}, nil
